@@ -524,3 +524,29 @@ func wordsN(p string, n int) string {
 	}
 	return s
 }
+
+// Moments: offsets from the start of the simulated clock (2000-01-01T00:00:00Z) at which calls are made:
+// a day later, just before a year ends, decades later, around 2038-01-19, a leap day.
+var Moments = []int64{
+	86_400_000_000_137,                       // 2000-01-02
+	(366*86400 - 1) * 1_000_000_000,          // 2000-12-31T23:59:59
+	(9497*86400 + 43200) * 1_000_000_000,     // 2026-01-01T12:00
+	(13898*86400 + 11647) * 1_000_000_000,    // 2038-01-19T03:14:07
+	(8825 * 86400) * 1_000_000_000,           // 2024-02-29
+	(36524 * 86400) * 1_000_000_000,          // 2099-12-31
+}
+
+// ProcEnvs: processes other than the default one the references run in.
+func ProcEnvs() []*plan.ProcEnv {
+	return []*plan.ProcEnv{
+		{Env: map[string]string{"TZ": "Asia/Tokyo"}},
+		{Env: map[string]string{"TZ": "America/Los_Angeles", "LANG": "en_US.UTF-8"}},
+		{Env: map[string]string{"LANG": "tr_TR.UTF-8", "LC_ALL": "tr_TR.UTF-8"}},
+		{Env: map[string]string{"LC_ALL": "C", "LANG": "C", "TZ": "UTC"}},
+		{Env: map[string]string{"HOSTNAME": "other-host", "USER": "nobody", "NO_COLOR": "1", "TERM": "dumb", "DEBUG": "1", "LOG_LEVEL": "debug", "GODEBUG": ""}},
+		{GOMAXPROCS: 1},
+		{GOMAXPROCS: 16},
+		{GOMAXPROCS: 2, CPUs: 2},
+		{GOMAXPROCS: 1, CPUs: 1},
+	}
+}
